@@ -61,7 +61,12 @@ class TemplateInterp:
             return ('const', node.value)
         if isinstance(node, ast.Name):
             if node.id in st.env:
-                return st.env[node.id]
+                v = st.env[node.id]
+                if v[0] == 'elem':
+                    t = self.typer(node, st)
+                    if t is not None:
+                        return t
+                return v
             t = self.typer(node, st)
             if t is not None:
                 return t
@@ -72,6 +77,12 @@ class TemplateInterp:
             if a[0] == 'str' and b[0] == 'str':
                 return ('str', a[1] + b[1])
             raise Unsupported('+ on non-strings', node)
+        if isinstance(node, ast.BoolOp) and isinstance(node.op, ast.Or) and len(node.values) == 2:
+            a = self.ev(node.values[0], st)
+            b = self.ev(node.values[1], st)
+            if a[0] == 'str' and b[0] == 'str':
+                return ('str', [('alt', [a[1], b[1]])])
+            raise Unsupported('or on non-strings', node)
         if isinstance(node, ast.JoinedStr):
             raise Unsupported('f-string', node)
         if isinstance(node, ast.Subscript):
@@ -107,12 +118,15 @@ class TemplateInterp:
             if t is not None:
                 return t
             raise Unsupported('attribute %s' % ast.unparse(node), node)
-        if isinstance(node, ast.ListComp):
+        if isinstance(node, (ast.ListComp, ast.GeneratorExp)):
             if len(node.generators) == 1 and not node.generators[0].ifs:
                 st2 = st.fork()
                 tgt = node.generators[0].target
                 if isinstance(tgt, ast.Name):
                     st2.env[tgt.id] = ('elem', ast.unparse(node.generators[0].iter))
+                elif isinstance(tgt, ast.Tuple) and all(isinstance(e, ast.Name) for e in tgt.elts):
+                    for k, e in enumerate(tgt.elts):
+                        st2.env[e.id] = ('elem', ast.unparse(node.generators[0].iter), k)
                 v = self.ev(node.elt, st2)
                 if v[0] == 'str':
                     return ('strlist', v[1])
@@ -174,6 +188,25 @@ class TemplateInterp:
             if arg[0] == 'str' and len(arg[1]) == 1 and arg[1][0][0] == 'hole' and arg[1][0][1].startswith('LIST:'):
                 return ('str', [('rep', [hole(arg[1][0][1][5:], arg[1][0][2])], septext)])
             raise Unsupported('join argument', node)
+        if isinstance(f, ast.Name) and st.env.get(f.id, (None,))[0] == 'localfunc' and not node.keywords:
+            # a function defined inside the method: every path of its body, parameters bound to the arguments
+            fdef = st.env[f.id][1]
+            params = [a.arg for a in fdef.args.args]
+            if len(params) == len(node.args):
+                st2 = st.fork()
+                for pn, an in zip(params, node.args):
+                    try:
+                        st2.env[pn] = self.ev(an, st)
+                    except Unsupported:
+                        st2.env[pn] = ('opaque', ast.unparse(an)[:60])
+                outs = []
+                for _st3, v in self.run(list(fdef.body), st2):
+                    if v is None or v[0] not in ('str', 'const'):
+                        raise Unsupported('local function %s returns a value of kind %s' % (f.id, v[0] if v else None), node)
+                    outs.append(self.as_segments(v, node))
+                if not outs:
+                    raise Infeasible()
+                return ('str', outs[0] if len(outs) == 1 else [('alt', outs)])
         t = self.typer(node, st)
         if t is not None:
             return t
@@ -281,6 +314,9 @@ def flatten(segs, choice=None):
                             part.extend(c)
                         new.append(v + part)
             variants = new
+        elif s[0] == 'alt':
+            choices = [c for alt in s[1] for c in flatten(alt)]
+            variants = [v + c for v in variants for c in choices]
         else:
             variants = [v + [s] for v in variants]
         if len(variants) > 4000:
